@@ -13,16 +13,17 @@ The field kernels are replaced by their contracts (justified by C12/K4, see DESI
 The real Element / ElementOfUnknownGroup / _ZeroElement methods run on top, unmodified."""
 import z3
 from .core import Ctx, SymInt, SymBool, SymBytes, T, EngineUnsupported, _mk_bool
-from .absgroup import norm
+from .absgroup import norm, strip_mod, norm_mod
 
 ENCPT = z3.Function("ENCPT", z3.IntSort(), z3.IntSort(), z3.IntSort())
 
 
 class AbsPt(tuple):
     """a 4-tuple (so the real constructors' asserts pass) carrying (k, t)"""
+    L = None
     def __new__(cls, k, t):
         o = tuple.__new__(cls, (None, None, None, None))
-        o.k = norm(k if z3.is_expr(k) else z3.IntVal(k))
+        o.k = norm_mod(k if z3.is_expr(k) else z3.IntVal(k), AbsPt.L) if AbsPt.L else norm(k if z3.is_expr(k) else z3.IntVal(k))
         o.t = norm(t if z3.is_expr(t) else z3.IntVal(t))
         return o
 
@@ -36,6 +37,7 @@ class EdAbs:
     def __init__(self, E):
         self.E = E
         self.L = E.L
+        AbsPt.L = E.L
         self.const = {tuple(E.Base.XYTZ): (1, 0), tuple(E.Zero.XYTZ): (0, 0)}
         self.saved = None
 
@@ -60,6 +62,10 @@ class EdAbs:
             ctx.axiom_providers.append(enc_axioms)
         ctx.data["edabs"] = self
 
+        def conc(*pts):
+            """all operands are plain concrete tuples without an abstract image: use the real kernel"""
+            return all(not isinstance(p, (AbsPt, Aff)) and tuple(p) not in me.const for p in pts)
+
         def add(a, b):
             a, b = me.lift(a), me.lift(b)
             return AbsPt(a.k + b.k, a.t + b.t)
@@ -69,8 +75,8 @@ class EdAbs:
             return AbsPt(2 * a.k, 2 * a.t)
 
         def exponent(n):
-            if isinstance(n, SymInt) and n.unmod is not None and isinstance(n.unmod[1], int) and n.unmod[1] == L:
-                return n.unmod[0], n.t
+            if isinstance(n, SymInt):
+                return strip_mod(n.t, L), n.t
             return T(n), T(n)
 
         def slow(a, n):
@@ -100,10 +106,14 @@ class EdAbs:
             return AbsPt(a.k + b.k, a.t + b.t)
 
         def iszero(a):
+            if conc(a):
+                return me.saved["is_extended_zero"](a)
             a = me.lift(a)
             return bool(SymBool(z3.And(a.k % L == 0, a.t % 8 == 0)))
 
         def to_aff(a):
+            if conc(a):
+                return me.saved["xform_extended_to_affine"](a)
             return Aff(me.lift(a))
 
         def encode(aff):
@@ -121,13 +131,25 @@ class EdAbs:
             return SymBytes.from_int(v, 32)
 
         def aff_to_ext(pt):
-            if tuple(pt) == (0, 1):
-                return AbsPt(0, 0)
             if isinstance(pt, Aff):
                 return pt.p
             return me.saved["xform_affine_to_extended"](pt)
 
-        names = dict(add_elements=add, double_element=dbl, scalarmult_element_safe_slow=slow,
+        def arb(seed):
+            """a concrete seed is hashed to a point by the real code with the real kernels (its result is an
+            unrelated concrete point; only its encoding is used, e.g. in the parameter fingerprint)"""
+            if not isinstance(seed, bytes):
+                raise EngineUnsupported("arbitrary_element of a symbolic seed over abstract points")
+            cur = {n: getattr(E, n) for n in me.saved}
+            for n, f in me.saved.items():
+                setattr(E, n, f)
+            try:
+                return me.saved["arbitrary_element"](seed)
+            finally:
+                for n, f in cur.items():
+                    setattr(E, n, f)
+
+        names = dict(arbitrary_element=arb, add_elements=add, double_element=dbl, scalarmult_element_safe_slow=slow,
                      scalarmult_element=fast, _add_elements_nonunfied=ded, is_extended_zero=iszero,
                      xform_extended_to_affine=to_aff, encodepoint=encode, xform_affine_to_extended=aff_to_ext)
         if self.saved is None:
